@@ -75,6 +75,9 @@ func TestPropLDS(t *testing.T) {
 			record("lds-SecurityInfos", cls, st, data)
 		case which == nKinds+2:
 			data, cls := genInput(rt, [][]byte{seed19794}, -1, 20000)
+			if rapid.IntRange(0, 2).Draw(rt, "grammar19794") > 0 {
+				data, cls = gen19794(rt), "grammar"
+			}
 			st := dispatch(rt, caseDesc{Run: "iso19794", Data: data})
 			record("lds-ISO19794", cls, st, data)
 		default:
